@@ -49,6 +49,24 @@ class OwnRenderingEncoder(_server_dispatcher.JSONEncoder):
         return super().default(o)
 
 
+class SingleUseEncoder(_server_dispatcher.JSONEncoder):
+    """An encoder with per-document state on the instance (the library is handed the class and json.dumps builds an
+    instance per document): an instance that is asked for a second document says so."""
+
+    def __init__(self, *args: Any, **kwargs: Any):
+        super().__init__(*args, **kwargs)
+        self.documents = 0
+
+    def encode(self, o: Any) -> str:
+        self.documents += 1
+        if self.documents > 1:
+            raise RuntimeError('one encoder instance was used for more than one document')
+        return super().encode(o)
+
+    def iterencode(self, o: Any, _one_shot: bool = False) -> Any:
+        return super().iterencode(o, _one_shot)
+
+
 class HookedDecoder(json.JSONDecoder):
     pass
 
